@@ -1056,6 +1056,10 @@ struct Zeroconf {
     /// Active "Browse" commands.
     service_queriers: HashMap<String, Sender<ServiceEvent>>, // <ty_domain, channel::sender>
 
+    /// The service types in `service_queriers` that are browsed from the cache only:
+    /// no query of any kind is sent for them.
+    cache_only_types: HashSet<String>,
+
     /// Active "ResolveHostname" commands.
     ///
     /// The timestamps are set at the future timestamp when the command should timeout.
@@ -1269,6 +1273,7 @@ impl Zeroconf {
             dns_registry_map,
             hostname_resolvers: HashMap::new(),
             service_queriers: HashMap::new(),
+            cache_only_types: HashSet::new(),
             retransmissions: Vec::new(),
             counters: HashMap::new(),
             poller,
@@ -3662,6 +3667,11 @@ impl Zeroconf {
             self.retransmissions
                 .retain(|rerun| !matches!(&rerun.command, Command::Browse(t, _, _, _) if t == &ty));
             self.service_queriers.insert(ty.clone(), listener.clone());
+            if cache_only {
+                self.cache_only_types.insert(ty.clone());
+            } else {
+                self.cache_only_types.remove(&ty);
+            }
 
             // if we already have the records in our cache, just send them
             self.query_cache_for_service(&ty, &listener, now);
@@ -3860,6 +3870,8 @@ impl Zeroconf {
         match self.service_queriers.remove_entry(&ty_domain) {
             None => debug!("StopBrowse: cannot find querier for {}", &ty_domain),
             Some((ty, sender)) => {
+                self.cache_only_types.remove(&ty);
+
                 // Remove pending browse commands in the reruns.
                 trace!("StopBrowse: removed queryer for {}", &ty);
                 let mut i = 0;
@@ -3999,6 +4011,11 @@ impl Zeroconf {
         let mut query_addr_count = 0;
 
         for (ty_domain, _sender) in self.service_queriers.iter() {
+            // A cache-only browse reports what the cache learns, it does not ask.
+            if self.cache_only_types.contains(ty_domain) {
+                continue;
+            }
+
             let refreshed_timers = self.cache.refresh_due_ptr(ty_domain);
             if !refreshed_timers.is_empty() {
                 trace!("sending refresh query for PTR: {}", ty_domain);
